@@ -14,7 +14,8 @@
 (*   Bulk       100+ tasks created, paged listing and executing set before   *)
 (*              and after a clean restart                                    *)
 (* Verdict level: success/failure of every answer, every listed task (id,    *)
-(* script, dbrps, vars, status, template, executing) and template.  Drift    *)
+(* type, script, dbrps, vars, status, template, executing, and the db.rp an  *)
+(* executing task really receives points from) and template.  Drift          *)
 (* level (printed, never a rejection): exact status code, stored error flag, *)
 (* raw association keys, which transaction a crash state belongs to.         *)
 EXTENDS TaskStore, TraceCommon
@@ -32,9 +33,10 @@ TrInit == Init /\ l = 1 /\ pre = NoPre /\ HWInit
 TaskView(m, t) ==
     LET r == m.T[t] IN
     IF r = NoTask
-    THEN [x |-> FALSE, script |-> "", dbrps |-> "", vars |-> "", status |-> "", tpl |-> "", exec |-> t \in m.X, err |-> FALSE]
-    ELSE [x |-> TRUE, script |-> r.script, dbrps |-> r.dbrps, vars |-> r.vars, status |-> r.status, tpl |-> r.tpl,
-          exec |-> t \in m.X, err |-> r.err]
+    THEN [x |-> FALSE, type |-> "", sub |-> m.run[t], script |-> "", dbrps |-> "", vars |-> "", status |-> "", tpl |-> "",
+          exec |-> t \in m.X, err |-> FALSE]
+    ELSE [x |-> TRUE, type |-> r.type, sub |-> m.run[t], script |-> r.script, dbrps |-> r.dbrps, vars |-> r.vars,
+          status |-> r.status, tpl |-> r.tpl, exec |-> t \in m.X, err |-> r.err]
 NoErr(v) == [v EXCEPT !.err = FALSE]
 
 Drift(what) == PrintT(<<"DRIFT", what, l>>)
@@ -72,7 +74,7 @@ ReqOf(r) == [op |-> r.op, id |-> r.id, newid |-> r.newid, tpl |-> r.tpl, script 
 
 TrReset ==
     /\ IsEv("Reset")
-    /\ T' = Empty.T /\ P' = Empty.P /\ A' = {} /\ X' = {}
+    /\ T' = Empty.T /\ P' = Empty.P /\ A' = {} /\ X' = {} /\ run' = NoRun
     /\ up' = Ln.up
     /\ att' = {} /\ lastOK' = NoneOK
     /\ acc' = Empty.T /\ accP' = Empty.P /\ mem' = {}
@@ -89,7 +91,7 @@ TrReq ==
           /\ Ln.ok = (h.code < 300)
           /\ Shows(h.m)
           /\ (Ln.code # h.code => Drift("status code"))
-          /\ pre' = [set |-> TRUE, q |-> q, T |-> T, P |-> P, A |-> A, X |-> X, att |-> att, lastOK |-> lastOK,
+          /\ pre' = [set |-> TRUE, q |-> q, T |-> T, P |-> P, A |-> A, X |-> X, run |-> run, att |-> att, lastOK |-> lastOK,
                      acc |-> acc, accP |-> accP, mem |-> mem, taint |-> taint]
     /\ n' = n + 1
 
@@ -114,7 +116,7 @@ TrEnv ==
 LoggedDur ==
     [T |-> [t \in TaskIds |->
               LET v == Ln.tasks[t] IN
-              IF v.x THEN [script |-> v.script, dbrps |-> v.dbrps, vars |-> v.vars, status |-> v.status, tpl |-> v.tpl, err |-> v.err]
+              IF v.x THEN [script |-> v.script, type |-> v.type, dbrps |-> v.dbrps, vars |-> v.vars, status |-> v.status, tpl |-> v.tpl, err |-> v.err]
               ELSE NoTask],
      P |-> [p \in TplIds |-> Ln.tpls[p]],
      A |-> SeqToSet(Ln.assoc)]
@@ -142,7 +144,7 @@ CrashPoints(h) ==
        ELSE IF any # {} THEN { k \in any : Drift("crash point index") }
        ELSE { k \in {-1} : Drift("crash state is no transaction boundary of the model") }
 
-PreM == Mach([T |-> pre.T, P |-> pre.P, A |-> pre.A], pre.X, pre.att, pre.lastOK)
+PreM == Mach([T |-> pre.T, P |-> pre.P, A |-> pre.A], pre.X, pre.run, pre.att, pre.lastOK)
 
 TrCrash ==
     /\ IsEv("Crash")
